@@ -529,6 +529,9 @@ class BasePort(logging_utils.LoggableMixin, metaclass=abc.ABCMeta):
 
             main.force_eval_expressions(self)
 
+        # Expressions reading this port were failing while it was disabled; they have to be evaluated again
+        main.force_eval_expressions()
+
         try:
             await self.handle_enable()
         except Exception:
@@ -550,6 +553,9 @@ class BasePort(logging_utils.LoggableMixin, metaclass=abc.ABCMeta):
         self.debug('disabling')
         self._enabled = False
         self.invalidate_attr('enabled')
+
+        # Expressions reading this port yield something else from now on (e.g. `DEFAULT` or `AVAILABLE`)
+        main.force_eval_expressions()
 
         try:
             await self.handle_disable()
